@@ -541,10 +541,11 @@ def check_objects(ck, hb, quick, replay):
             stats["mesh"]["op"]["load" if op == 0 else "SurfSourceMat"] = stats["mesh"]["op"].get("load" if op == 0 else "SurfSourceMat", 0) + 1
             if q < len(ht) and op == 0: stats["mesh"]["status"][str(ht[q][0])] = stats["mesh"]["status"].get(str(ht[q][0]), 0) + 1
         # everything but the private geometry (status, #mesh vertices, #triangles, flags) must be that of a fresh Mesh
-        fq = [q for q in range(min(len(h), len(ht), len(it))) if h[q][0] == 0 and (ht[q][0:1] + ht[q][2:7]) != (it[q][0:1] + it[q][2:7])]
+        def loc(o): return o[0:1] + o[2:7] + o[7 + 3 * o[3]:]          # without the private geometry: size and global triangle indices
+        fq = [q for q in range(min(len(h), len(ht), len(it))) if h[q][0] == 0 and loc(ht[q]) != loc(it[q])]
         if fq:
             q = fq[0]
-            ck.violation("mesh: status/sizes/flags differ after history (%s)" % (names if len(h) <= 3 else "%d operations" % len(h)),
+            ck.violation("mesh: status/sizes/flags/local triangles differ after history (%s)" % (names if len(h) <= 3 else "%d operations" % len(h)),
                          "operation %d of [%s] on one Mesh gives (status,#geometry vertices,#vertices,#triangles,outermost,current_barrier,isolated)=%s, a fresh Mesh gives %s" % (q, names, ht[q][:7], it[q][:7]), rp)
             continue
         diff = [q for q in range(len(h)) if q >= len(ht) or q >= len(mt) or ht[q] != mt[q]]
